@@ -24,7 +24,7 @@ St0 == [wireIn |-> <<>>, wireOut |-> <<>>, keysIn |-> <<>>, keysOut |-> 0, unget
         trig |-> <<>>, ts |-> <<>>, sched |-> <<>>, sigs |-> 0, tswrites |-> 0, tsdone |-> {},
         gone |-> {}, schedOut |-> <<>>,
         open |-> FALSE, T |-> -1, t0 |-> 0, deliverable |-> FALSE, schedAtStart |-> FALSE, bigRead |-> FALSE,
-        wireAtStart |-> 0, ticksInReq |-> 0, bigN |-> 0]
+        wireAtStart |-> 0, ticksInReq |-> 0, bigN |-> 0, stalled |-> FALSE]
 
 Init == i \in 1..Len(Traces) /\ l = 1 /\ st = St0 /\ v = <<"ok", "", 0>>
 Fail(clause) == IF v[1] = "ok" /\ clause # "ok" THEN <<"fail", clause, l>> ELSE v
@@ -62,7 +62,7 @@ AddBytes(s, bytes) == [s EXCEPT !.ungetOut = s.ungetOut \o SelectSeq(bytes, IsUn
 AddKeys(s, keys) == [s EXCEPT !.keysOut = s.keysOut + Len(WireKeys(keys))]
 
 RetVerdict(s, e, pt) ==
-  LET prompt == e.t1 - s.t0 < TICK /\ s.ticksInReq = 0
+  LET prompt == s.stalled \/ (e.t1 - s.t0 < TICK /\ s.ticksInReq = 0)
   IN IF e.kind = "exc" THEN "RequestRaised"
      ELSE IF s.deliverable /\ (e.kind = "none" \/ e.kind = "blocked") THEN "ReturnsWhatIsAlreadyDeliverable"
      ELSE IF s.deliverable /\ ~prompt THEN "DoesNotBlockWhileDeliverable"
@@ -103,7 +103,7 @@ RetVerdict(s, e, pt) ==
      ELSE "MachineryUnknownReturnKind"
 
 AfterRet(s, e) ==
-  LET s1 == [s EXCEPT !.open = FALSE, !.bigRead = FALSE, !.ticksInReq = 0]
+  LET s1 == [s EXCEPT !.open = FALSE, !.bigRead = FALSE, !.ticksInReq = 0, !.stalled = FALSE]
   IN IF e.kind = "key" THEN AddKeys(AddBytes(s1, e.bytes), <<e.bytes>>)
      ELSE IF e.kind = "paste" THEN AddKeys(AddBytes(s1, FlattenSeq(e.keys)), e.keys)
      ELSE IF e.kind = "event" \/ e.kind = "sched" THEN [s1 EXCEPT !.gone = s.gone \cup {e.id}]
@@ -124,10 +124,11 @@ Next ==
           [] e.k = "sched" -> st' = [st EXCEPT !.sched = Append(st.sched, <<e.when, e.id>>)] /\ v' = v
           [] e.k = "sigint" -> st' = [st EXCEPT !.sigs = st.sigs + 1] /\ v' = v
           [] e.k = "tick" -> st' = [st EXCEPT !.ticksInReq = IF st.open THEN st.ticksInReq + 1 ELSE 0] /\ v' = v
+          [] e.k = "stalled" -> st' = [st EXCEPT !.stalled = TRUE] /\ v' = v       \* the thread was descheduled: time passed without the code blocking
           [] e.k = "req" ->
                /\ st' = [st EXCEPT !.open = TRUE, !.T = e.T, !.t0 = e.t0, !.deliverable = Deliverable(st, e.t0),
                                    !.schedAtStart = PendingSched(st) # <<>>, !.bigRead = FALSE,
-                                   !.wireAtStart = Len(st.wireIn), !.ticksInReq = 0]
+                                   !.wireAtStart = Len(st.wireIn), !.ticksInReq = 0, !.stalled = FALSE]
                /\ v' = Fail(IF st.open THEN "MachineryNestedRequest" ELSE "ok")
           [] e.k = "read" -> st' = [st EXCEPT !.bigRead = st.bigRead \/ (pt >= 0 /\ e.n > pt /\ e.first = 1),
                                               !.bigN = IF pt >= 0 /\ e.n > pt /\ e.first = 1 THEN e.n ELSE st.bigN] /\ v' = v
